@@ -21,6 +21,7 @@ package c07
 import (
 	"fmt"
 	"math"
+	"os"
 	"sort"
 	"strings"
 	"testing"
@@ -394,6 +395,9 @@ func hasLevels(lv []int) bool {
 // reference tree minus one result (recall) ; self retrieval must always succeed.
 const recallFloor = 0.5
 
+// selfFloor: fraction of the vectors of one index that must be found by their own value.
+const selfFloor = 0.8
+
 func recallFamily(c *vk.Ctx) {
 	pts := [][]float32{{0, 0}, {1, 0}, {0, 1}, {1, 1}, {2, 0.5}, {3, 3}, {-1, 2}, {0.5, 0.5}, {4, 0}}
 	cf := cfg{"euclidean", "float32", 2, 8}
@@ -401,7 +405,7 @@ func recallFamily(c *vk.Ctx) {
 	if c.Thorough() {
 		perms = permutationsOf(7)
 	}
-	minRecall := 1.0
+	minRecall, minSelf := 1.0, 1.0
 	for pi, perm := range perms {
 		for plan := 0; plan < 4; plan++ {
 			if !c.Mine() {
@@ -434,17 +438,21 @@ func recallFamily(c *vk.Ctx) {
 				}
 				c.Eval(1)
 				c.DistinctKey(fmt.Sprintf("recall/%d/%d/%s", pi, plan, ev))
+				selfFound, selfMissing := 0, ""
 				for id, v := range live {
 					res := h.SearchWithScores(append([]float32(nil), v...), 3, nil, 8)
-					// self retrieval: distance 0 must be among the results
+					// self retrieval: distance 0 among the results (counted per index: the
+					// property promises a fraction, not every single vector)
 					found := false
 					for _, r := range res {
 						if r.Score < 1e-9 {
 							found = true
 						}
 					}
-					if !found {
-						c.Violate(fmt.Sprintf("C07 self-retrieval perm=%v plan=%d event=%s", perm, plan, ev), fmt.Sprintf("vector %s=%v not found by its own value: %v", id, v, res), nil)
+					if found {
+						selfFound++
+					} else {
+						selfMissing += fmt.Sprintf(" %s=%v->%v", id, v, res)
 					}
 					// recall@3
 					var all []float64
@@ -470,10 +478,17 @@ func recallFamily(c *vk.Ctx) {
 						c.Violate(fmt.Sprintf("C07 recall-floor perm=%v plan=%d event=%s", perm, plan, ev), fmt.Sprintf("query %v: recall@3 = %.2f < %.2f (%v)", v, rc, recallFloor, res), nil)
 					}
 				}
+				if fr := float64(selfFound) / float64(len(live)); fr < minSelf {
+					minSelf = fr
+				}
+				if float64(selfFound) < selfFloor*float64(len(live)) {
+					c.Violate(fmt.Sprintf("C07 self-retrieval perm=%v plan=%d event=%s", perm, plan, ev), fmt.Sprintf("%d of %d vectors found by their own value (floor %.2f); missing:%s", selfFound, len(live), selfFloor, selfMissing), nil)
+				}
 			}
 		}
 	}
 	c.F.Notes["min_recall_at_3_shard"+fmt.Sprint(c.F.Shard)] = fmt.Sprintf("%.3f", minRecall)
+	c.F.Notes["min_self_retrieval_shard"+fmt.Sprint(c.F.Shard)] = fmt.Sprintf("%.3f", minSelf)
 }
 
 func permutationsOf(n int) [][]int {
@@ -515,6 +530,18 @@ func run(c *vk.Ctx) {
 		vk.ReportReplay("ok", nil)
 		return
 	}
+	// the two finite families beyond the exact regime first: the exhaustive enumeration below is
+	// the part that a deadline may cut
+	part := os.Getenv("VERIF_C07_PART")
+	if part == "" || part == "recall" {
+		recallFamily(c)
+	}
+	if part == "" || part == "large" {
+		largeFamily(c)
+	}
+	if part != "" && part != "exact" {
+		return
+	}
 	enumerate(c, func(s scenario) bool {
 		if !c.Mine() {
 			return true
@@ -545,7 +572,181 @@ func run(c *vk.Ctx) {
 		}
 		return !c.TimeUp()
 	})
-	recallFamily(c)
+}
+
+// ---- larger fixed family -------------------------------------------------------------------
+//
+// A finite family of larger indexes, every member built and queried completely: data sets from a
+// fixed linear congruential generator (uniform and clustered, dimensions 4 and 32), M in {4, 8},
+// HNSW levels drawn by the harness from the geometric law the index itself uses, insertion paths
+// {single adds, 100 single adds + one batch, 100 single adds + fast import + refine}, events
+// {none, delete every 5th + vacuum, refine}. For every member: the fraction of live vectors found
+// by their own value (k=1) and recall@10 of every live vector as query, both with efSearch 64.
+// The floors are fixed: well below what the reference tree reaches on every member (see the
+// evidence notes) and far above what an index with unreachable nodes delivers.
+const (
+	largeSelfFloor   = 0.75
+	largeRecallFloor = 0.70
+)
+
+type lcg struct{ s uint64 }
+
+func (g *lcg) next() float64 {
+	g.s = g.s*6364136223846793005 + 1442695040888963407
+	return float64(g.s>>11) / float64(1<<53)
+}
+
+func largeFamily(c *vk.Ctx) {
+	type member struct {
+		m, dim, n int
+		data      string
+		path      string
+		event     string
+		seed      uint64
+	}
+	var ms []member
+	for _, md := range [][2]int{{4, 4}, {4, 32}, {8, 32}} {
+		for _, data := range []string{"uniform", "clustered"} {
+			for _, path := range []string{"single", "single+batch", "single+fast+refine"} {
+				for _, ev := range []string{"none", "del+vacuum", "refine"} {
+					for _, seed := range []uint64{1, 2} {
+						ms = append(ms, member{md[0], md[1], 400, data, path, ev, seed})
+					}
+				}
+			}
+		}
+	}
+	minSelf, minRecall := 1.0, 1.0
+	for mi, mb := range ms {
+		if !c.Mine() {
+			continue
+		}
+		if c.TimeUp() {
+			c.Cap("larger family cut short by the deadline")
+			break
+		}
+		g := &lcg{mb.seed*7919 + uint64(mb.dim)}
+		vecs := make([][]float32, mb.n)
+		centres := make([][]float32, 8)
+		for i := range centres {
+			centres[i] = make([]float32, mb.dim)
+			for j := range centres[i] {
+				centres[i][j] = float32(g.next() * 10)
+			}
+		}
+		for i := range vecs {
+			v := make([]float32, mb.dim)
+			for j := range v {
+				if mb.data == "uniform" {
+					v[j] = float32(g.next())
+				} else {
+					v[j] = centres[i%8][j] + float32(g.next()-0.5)
+				}
+			}
+			vecs[i] = v
+		}
+		levels := make([]int, mb.n)
+		for i := range levels {
+			u := g.next()
+			if u < 1e-12 {
+				u = 1e-12
+			}
+			levels[i] = int(math.Floor(-math.Log(u) / math.Log(float64(mb.m))))
+		}
+		h, err := hnsw.New(mb.m, 64, distance.Euclidean, distance.Float32, "", "")
+		if err != nil {
+			continue
+		}
+		vrand.SetPlan(mb.m, levels)
+		first := mb.n
+		if mb.path != "single" {
+			first = 100
+		}
+		for i := 0; i < first; i++ {
+			h.Add(idOf(i), append([]float32(nil), vecs[i]...))
+		}
+		if first < mb.n {
+			objs := make([]types.BatchObject, 0, mb.n-first)
+			for i := first; i < mb.n; i++ {
+				objs = append(objs, types.BatchObject{Id: idOf(i), Vector: append([]float32(nil), vecs[i]...)})
+			}
+			if mb.path == "single+batch" {
+				h.AddBatch(objs)
+			} else {
+				h.AddBatchFast(objs)
+				h.MaintenanceRun("refine")
+			}
+		}
+		live := map[int]bool{}
+		for i := range vecs {
+			live[i] = true
+		}
+		switch mb.event {
+		case "del+vacuum":
+			for i := 0; i < mb.n; i += 5 {
+				h.Delete(idOf(i))
+				delete(live, i)
+			}
+			h.MaintenanceRun("vacuum")
+		case "refine":
+			h.MaintenanceRun("refine")
+		}
+		c.Eval(1)
+		c.State(1)
+		name := fmt.Sprintf("large M=%d dim=%d %s path=%s event=%s seed=%d", mb.m, mb.dim, mb.data, mb.path, mb.event, mb.seed)
+		c.DistinctKey(name)
+		found, hits, total := 0, 0, 0
+		cf := cfg{"euclidean", "float32", mb.m, 64}
+		for i := range vecs {
+			if !live[i] {
+				continue
+			}
+			q := vecs[i]
+			res := h.SearchWithScores(append([]float32(nil), q...), 10, nil, 64)
+			for _, r := range res {
+				if r.Score < 1e-9 {
+					found++
+					break
+				}
+			}
+			var all []float64
+			for j := range vecs {
+				if live[j] {
+					all = append(all, trueDist(cf, q, vecs[j]))
+				}
+			}
+			sort.Float64s(all)
+			k := 10
+			if len(all) < k {
+				k = len(all)
+			}
+			for _, r := range res {
+				if r.Score <= all[k-1]*(1+1e-6)+1e-9 {
+					hits++
+				}
+			}
+			total += k
+			c.Trans(1)
+		}
+		self := float64(found) / float64(len(live))
+		rec := float64(hits) / float64(total)
+		if self < minSelf {
+			minSelf = self
+		}
+		if rec < minRecall {
+			minRecall = rec
+		}
+		c.Outcome(fmt.Sprintf("large self>=%.1f recall>=%.1f", math.Floor(self*10)/10, math.Floor(rec*10)/10))
+		if self < largeSelfFloor {
+			c.Violate("C07 large-family self-retrieval "+name, fmt.Sprintf("%d of %d live vectors found by their own value (%.3f < %.2f)", found, len(live), self, largeSelfFloor), nil)
+		}
+		if rec < largeRecallFloor {
+			c.Violate("C07 large-family recall "+name, fmt.Sprintf("recall@10 = %.3f < %.2f", rec, largeRecallFloor), nil)
+		}
+		_ = mi
+	}
+	c.F.Notes["large_family_min_self_shard"+fmt.Sprint(c.F.Shard)] = fmt.Sprintf("%.3f", minSelf)
+	c.F.Notes["large_family_min_recall_shard"+fmt.Sprint(c.F.Shard)] = fmt.Sprintf("%.3f", minRecall)
 }
 
 func firstWords(s string) string {
